@@ -105,6 +105,10 @@ pub enum Owned {
     MapVec,
     /// `cast::map_slice_box_in_place(boxed, T::from_color)`
     MapBox,
+    /// `vec.into_color()` / `into_color_unclamped()` (the blanket `IntoColor` impls)
+    VecInto,
+    /// `boxed.into_color()` / `into_color_unclamped()`
+    BoxedInto,
 }
 
 #[derive(Clone, Debug, Serialize, Deserialize, Hash, PartialEq, Eq)]
@@ -543,7 +547,7 @@ impl World for C13 {
                 _ => Episode::Owned {
                     ty,
                     unclamped,
-                    how: *rng.pick(&[Owned::Vec, Owned::Boxed, Owned::MapVec, Owned::MapBox]),
+                    how: *rng.pick(&[Owned::Vec, Owned::Boxed, Owned::MapVec, Owned::MapBox, Owned::VecInto, Owned::BoxedInto]),
                 },
             };
             episodes.push(e);
@@ -791,7 +795,7 @@ macro_rules! exec_layout {
                     Episode::Owned { ty, unclamped, how } => {
                         ev!(ctx, "episode {n}: owned {how:?} -> {} {}", names[*ty as usize], if *unclamped { "unclamped" } else { "clamped" });
                         ctx.step();
-                        ctx.cell(names[*ty as usize], match how { Owned::Vec => "Vec::from_color", Owned::Boxed => "Box::from_color", Owned::MapVec => "map_vec_in_place", Owned::MapBox => "map_slice_box_in_place" });
+                        ctx.cell(names[*ty as usize], match how { Owned::Vec => "Vec::from_color", Owned::Boxed => "Box::from_color", Owned::MapVec => "map_vec_in_place", Owned::MapBox => "map_slice_box_in_place", Owned::VecInto => "Vec::into_color", Owned::BoxedInto => "Box::into_color" });
                         let taken = std::mem::replace(&mut owner, $make(0, &[], 0));
                         let r = catch(|| $vecconv(taken, *ty, *unclamped, *how));
                         let (new_owner, before, after) = match r {
